@@ -133,9 +133,25 @@ def main(argv=None):
         partial = True
     jobs = [(modname, t, prop, a.tier, seed) for t in tasks]
     ctxm = mp.get_context("fork")
+    # wall-clock guard: a registered command must return.  A task that has not finished when the budget is spent is recorded as ONE
+    # undecided obligation (exit 2), never as a pass and never as a violation, and its worker is terminated.
+    budget = float(os.environ.get("VERIF_TASK_TIMEOUT", "2400" if a.tier == "quick" else "10800"))
     if a.jobs > 1 and len(jobs) > 1:
-        with ctxm.Pool(min(a.jobs, len(jobs)), maxtasksperchild=1) as pool:
-            outs = pool.map(_run_task, jobs, chunksize=1)
+        pool = ctxm.Pool(min(a.jobs, len(jobs)), maxtasksperchild=1)
+        try:
+            pending = [pool.apply_async(_run_task, (j,)) for j in jobs]
+            deadline = time.time() + budget
+            outs = []
+            for j, ar in zip(jobs, pending):
+                try:
+                    outs.append(ar.get(timeout=max(1.0, deadline - time.time())))
+                except mp.TimeoutError:
+                    outs.append({"task": j[1], "error": None, "results": [{"id": "%s.%s.finishes-within-the-wall-clock-budget" % (prop, j[1]), "status": "unknown", "backend": "none", "time_s": budget,
+                                                                             "detail": "task did not finish within %.0f s (VERIF_TASK_TIMEOUT); nothing it might have decided is counted" % budget}],
+                                 "functions": [], "assumptions": [], "not_decided": ["task %s: timed out" % j[1]], "bounded": [], "samples": [], "notes": [], "crosschecks": 0, "wall_s": budget, "solver": {}})
+        finally:
+            pool.terminate()
+            pool.join()
     else:
         outs = [_run_task(j) for j in jobs]
 
